@@ -70,10 +70,12 @@ impl Kind {
     fn spec(self, real_now: i128) -> Option<TrackSpec> {
         let t = |leap: u16, age: i128, off: f64, delay: f64, disp: f64| TrackSpec { ref_id: 0, leap, ref_time_ns: real_now - age, offset_bits: encode_float(off), delay_bits: encode_float(delay), disp_bits: encode_float(disp), interval_bits: encode_float(16.0) };
         match self {
-            Kind::Sp => Some(t(0, S, 0.007, 0.1, 0.02)),
-            Kind::Sm => Some(t(0, S, -0.007, 0.1, 0.02)),
-            Kind::S0 => Some(t(0, S, 0.0, 0.0, 0.0)),
-            Kind::Se => Some(t(2, S, -3e-10, 4e-10, 2e-10)),
+            // chronyd's reference time only moves when its source is polled (every 16 s here): consecutive
+            // daemon polls inside one window carry the same reference time with different offset/dispersion
+            Kind::Sp => Some(t(0, S + (real_now - S).rem_euclid(16 * S), 0.007, 0.1, 0.02)),
+            Kind::Sm => Some(t(0, S + (real_now - S).rem_euclid(16 * S), -0.007, 0.1, 0.02)),
+            Kind::S0 => Some(t(0, S + (real_now - S).rem_euclid(16 * S), 0.0, 0.0, 0.0)),
+            Kind::Se => Some(t(2, S + (real_now - S).rem_euclid(16 * S), -3e-10, 4e-10, 2e-10)),
             Kind::U => Some(t(3, S, 0.5, 1.0, 1.0)),
             Kind::St => Some(t(0, 129 * S, 0.007, 0.1, 0.02)),
             Kind::X => Some(t(4, S, 0.007, 0.1, 0.02)),
